@@ -17,6 +17,7 @@ Definition propfail_c15 (c : c15_case) : bool :=
 Definition as_adm (c : c15_case) : adm_case :=
   AdmCase (c15_cfg c) (c15_marker c) (c15_req c) (c15_world c) (c15_evals c) (c15_fresh c, []) None None None None.
 Definition mismatch_c15 (c : c15_case) : bool :=
-  negb (resp_match (fst (validate (c15_cfg c) (table_ev (as_adm c)) (c15_req c) (c15_world c))) (c15_fresh c)).
+  negb ((if is_namespaces (c15_req c) then resp_match else resp_match_loose)
+          (fst (validate (c15_cfg c) (table_ev (as_adm c)) (c15_req c) (c15_world c))) (c15_fresh c)).
 Definition run_c15 (cs : list c15_case) : list N * list N :=
   (find_idx propfail_c15 cs, find_idx mismatch_c15 cs).
